@@ -59,6 +59,34 @@ def runto_case(args):
         b = sp.proc(t3.Proc("mid", kind="cattok", ins=[("a", [(a, "o")])], outs=[("o", "{i:a}.mid")]))
         sp.proc(t3.Proc("other", kind="cat", ins=[("a", [(b, "o")])], outs=[("o", "{i:a}.other")]))
         sp.runto = [rng.choice([a, b])]
+    elif i % 5 == 1:
+        # a non-tree closure: A feeds B and C, both feed the target D; C has a second producer E that is reachable only
+        # through C (a file port or a parameter port).  Whatever order the ports are visited in, E belongs to the closure
+        sp = t3.Spec(maxtasks=rng.randint(1, 3), bufsize=rng.choice([1, 2, 128]))
+        L = rng.randint(1, 3)
+        pa, pe = ["da%d.txt" % j for j in range(L)], ["de%d.txt" % j for j in range(L)]
+        for p in pa + pe:
+            sp.files[p] = p + "\n"
+        sa = sp.src("srca", pa)
+        A = sp.proc(t3.Proc("A", kind="cattok", ins=[("a", [(sa, "out")])], outs=[("o", "{i:a}.A")]))
+        B = sp.proc(t3.Proc("B", kind="cattok", ins=[("a", [(A, "o")])], outs=[("o", "{i:a}.B")]))
+        if rng.random() < 0.5:
+            se = sp.src("srce", pe)
+            E = sp.proc(t3.Proc("E", kind="cattok", ins=[("a", [(se, "out")])], outs=[("o", "{i:a}.E")]))
+            C = sp.proc(t3.Proc("C", kind="cattok", ins=[("x", [(A, "o")]), ("y", [(E, "o")])], outs=[("o", "{i:x}.C")]))
+        else:
+            E = sp.psrc("E", ["ev%d" % j for j in range(L)])
+            C = sp.proc(t3.Proc("C", kind="cattok", ins=[("x", [(A, "o")])], pars=[("q", ("U", E)), ("r", ("V", ["rv%d" % j for j in range(L)]))], outs=[("o", "{i:x}.C.{p:q}")]))
+        D = sp.proc(t3.Proc("D", kind="cat", ins=[("b", [(B, "o")]), ("c", [(C, "o")])], outs=[("o", "{i:b}.D")]))
+        sp.proc(t3.Proc("other", kind="cat", ins=[("a", [(A, "o")])], outs=[("o", "{i:a}.other")]))
+        sp.runto = [D]
+        sp.runto_mode = rng.choice(["N", "R", "P"])
+        for attempt in range(5):          # the visiting order is Go's map iteration: several runs
+            r = t3.success_case(sp, timeout=60)
+            r["kind"] = "runto-nontree-closure"
+            if r["problems"]:
+                break
+        return r
     elif i % 5 == 2:
         # process names that contain regular-expression metacharacters, beside processes whose names the pattern would match
         sp = t3.Spec(maxtasks=rng.randint(1, 3), bufsize=rng.choice([1, 2, 128]))
@@ -235,7 +263,7 @@ def run(rep, tier, seed):
     t3.report_t3(rep, MODULE, proved, results, "T3 unconnected ports / RunTo")
     rep.cov["evaluations"] = len(results)
     rep.cov["distinct_nontrivial"] = len({r["spec"] for r in results})
-    rep.cov["rule"] = "unconnected: a random workflow in which one in-port loses its connection or one extra parameter port is created and never connected -- must exit non-zero, execute no command, create no file; RunTo: process names containing regular-expression metacharacters beside names such a pattern would match; random workflows run to 1-2 random target processes by name, by regular expression or by process value, plus FromStr feeders longer than the buffer upstream of the target -- executed tasks and files must be exactly those of the upstream closure as computed by the reference evaluator; drain: a streaming out-port that nobody consumes or whose consumer RunTo cuts off -- the run must complete and leave no FIFO; a dangling file out-port and an unread parameter source together, one of them longer than the buffer after the other has closed -- the run must complete; lock-step: a component emitting a parameter and a file alternately, the parameters unconsumed or cut off by RunTo, more pairs than the buffer holds -- all tasks of the process that is run must execute; component: a CommandToParams component whose command leaves a mark, outside the closure of a RunTo target / in a refused workflow / in a fully wired one -- the mark must appear only in the last; every case distinct"
+    rep.cov["rule"] = "unconnected: a random workflow in which one in-port loses its connection or one extra parameter port is created and never connected -- must exit non-zero, execute no command, create no file; RunTo: non-tree closures (a diamond whose one branch has a further producer, file or parameter, reachable only through it; five runs each); process names containing regular-expression metacharacters beside names such a pattern would match; random workflows run to 1-2 random target processes by name, by regular expression or by process value, plus FromStr feeders longer than the buffer upstream of the target -- executed tasks and files must be exactly those of the upstream closure as computed by the reference evaluator; drain: a streaming out-port that nobody consumes or whose consumer RunTo cuts off -- the run must complete and leave no FIFO; a dangling file out-port and an unread parameter source together, one of them longer than the buffer after the other has closed -- the run must complete; lock-step: a component emitting a parameter and a file alternately, the parameters unconsumed or cut off by RunTo, more pairs than the buffer holds -- all tasks of the process that is run must execute; component: a CommandToParams component whose command leaves a mark, outside the closure of a RunTo target / in a refused workflow / in a fully wired one -- the mark must appear only in the last; every case distinct"
     rep.cov["samples"] = [results[0]["spec"], results[-1]["spec"]]
     kinds = {}
     for r in results:
